@@ -1001,6 +1001,68 @@ func main() {
 			t.Outcome("exact")
 		})
 
+		// One masked frame of more than 2^31 bytes, actually delivered, read through the message
+		// reader in pieces of 1 MiB after 3 odd bytes (the running offset inside the frame is never a
+		// multiple of 4): no panic, every piece unmasked as the formula says (ends of every piece, the
+		// pieces around the 2^31 mark in full).
+		r.Part("E9-a-frame-longer-than-2^31-bytes", func(t *explore.T) {
+			t.Do(func() string {
+				return "masked binary frame of 2^31 + 3 MiB bytes through wsutil.Reader, Read(3) then 1 MiB reads"
+			}, func() (fail *explore.Fail) {
+				defer func() {
+					if r := recover(); r != nil {
+						fail = explore.Failf("panic:frame-longer-than-2^31", "%v", r)
+					}
+				}()
+				const piece = 1 << 20
+				total := int64(1)<<31 + 3*piece
+				key := [4]byte{0x9a, 0x05, 0xf1, 0x3c}
+				hdr := refmodel.HdrEncode(refmodel.Hdr{Fin: true, Op: 2, Masked: true, Mask: key, Len: uint64(total)})
+				block := make([]byte, piece)
+				for i := range block {
+					block[i] = byte(i*7 + i>>9 + 1)
+				}
+				src := &bigFrameSrc{hdr: hdr, block: block}
+				rd := &wsutil.Reader{Source: src, State: ws.StateServerSide}
+				if _, err := rd.NextFrame(); err != nil {
+					return explore.Failf("harness-frame", "%v", err)
+				}
+				buf := make([]byte, piece)
+				var off int64
+				step := func(n int) *explore.Fail {
+					src.reset()
+					if _, err := io.ReadFull(rd, buf[:n]); err != nil {
+						return explore.Failf("long-frame-read", "at offset %d: %v", off, err)
+					}
+					full := n < 64 || (off > 1<<31-2*piece && off < 1<<31+2*piece)
+					for i := 0; i < n; i++ {
+						if !full && i == 64 && n > 128 {
+							i = n - 64
+						}
+						if want := block[i] ^ key[(off+int64(i))%4]; buf[i] != want {
+							return explore.Failf("long-frame-byte-wrong", "frame offset %d: got %#x want %#x", off+int64(i), buf[i], want)
+						}
+					}
+					off += int64(n)
+					return nil
+				}
+				if f := step(3); f != nil {
+					return f
+				}
+				for off < total {
+					n := piece
+					if total-off < piece {
+						n = int(total - off)
+					}
+					if f := step(n); f != nil {
+						return f
+					}
+				}
+				return nil
+			})
+			t.Outcome("ok")
+		})
+
 		// Fragmented messages that outgrow what the collecting helpers are willing to reserve up
 		// front (1 MiB): whatever the sizes of the fragments before and after that point - a
 		// further header arriving when more than the limit has been collected, empty fragments,
@@ -1100,6 +1162,28 @@ func main() {
 			t.Outcome("exact")
 		})
 	})
+}
+
+// bigFrameSrc delivers a frame header and then, for every read the harness asks for, a prefix of
+// the same block (an endless payload without the memory).
+type bigFrameSrc struct {
+	hdr   []byte
+	off   int
+	block []byte
+	pos   int
+}
+
+func (s *bigFrameSrc) reset() { s.pos = 0 }
+
+func (s *bigFrameSrc) Read(p []byte) (int, error) {
+	if s.off < len(s.hdr) {
+		n := copy(p, s.hdr[s.off:])
+		s.off += n
+		return n, nil
+	}
+	n := copy(p, s.block[s.pos:])
+	s.pos += n
+	return n, nil
 }
 
 // optionCase feeds one option string to every consumer of extension / subprotocol header values.
